@@ -75,6 +75,16 @@ func init() {
 		Stub:            []string{"storage.FileSystem -> SimDisk"},
 		Assumptions:     []string{"weakest fit for this technique: the schedule/fault space is the restart between write and read (tables reopened from their JSON descriptor) and the Truncate-vs-writer interleaving of the WAL; the entry runs themselves are seeded input generation against a slice model"},
 		Rule:            "each run = one seeded case: either a key-ordered entry run (0-4500 entries, sizes straddling index spacing 16 and target/1.5x target, tombstones, empty/binary keys and values) written with Write/WriteRun, reopened from its JSON descriptor after a simulated restart, and probed with present/absent/before-first/after-last/between lookups and prefix scans; or a WAL history of put/delete/cut/rotate by one task with Truncate by another under a seeded interleaving, saved and replayed from every legal marker; non-trivial = finished with >= 1 probe; distinct = distinct (schedule hash, abstract state)"}
+	opSpec := func(q, t int, probes ...string) spec {
+		return spec{Harness: "H-OP", QuickRuns: q, QuickWallS: 55, ThoroughRuns: t, ThoroughWallS: 1200, Chunk: 100, MandatoryProbes: probes,
+			Real: []string{"workers/operator (Operator, checkpoint alignment, KeyedStateStore, TimerRegistry, TimerStore, OperatorPartition)", "batching.EventBatcher + clocks.SystemTimer", "dkv (all)", "partitioning", "jobs.Assembly.Deploy (rescale)", "util/ds, util/murmur"},
+			Stub: []string{"source runners -> one sender task per (runner, operator) stream", "proto.Job -> stub recording acknowledgements", "proto.Handler -> reference handler (oracle)", "connect/HTTP transport -> direct calls of the same Handle* methods with CodeUnavailable retry", "storage -> SimDisk via the FileSystem factory hook", "clocks.Clock -> FrozenClock (registration poller only)"},
+			Rule: "each run = one seeded case (1-4 senders, 1-4 operators, key-group count from the edge-biased swarm 1..65535, batching 1-5 / 0-5ms, DKV + timer-cache sizing swarm, per-sender scripted streams of keyed events with state-mutation scripts, watermarks and 1-3 checkpoint barriers, each sender's barrier at its own position) under one seeded interleaving of the concurrent HandleEvent calls, the event loop, batch time-outs, handler latency and the DB background tasks; oracles = reference handler (supplied state == shadow on every invocation, watermark, timers) + independent read-back of every acknowledged checkpoint; non-trivial = finished, >= 1 context switch, >= 1 checkpoint verified; distinct = distinct released-task sequence"}
+	}
+	specs["C02"] = opSpec(3000, 150000, "operator-ack", "checkpoint-verified")
+	specs["C03"] = opSpec(3000, 150000, "checkpoint-verified")
+	specs["C06"] = opSpec(1500, 60000, "checkpoint-verified", "operator-killed", "operator-redeployed-in-place")
+	specs["C11"] = opSpec(3000, 150000, "timer-expired", "checkpoint-verified")
 	specs["C20"] = spec{Harness: "H-BATCH", QuickRuns: 30000, QuickWallS: 50, ThoroughRuns: 1500000, ThoroughWallS: 1200, Chunk: 500,
 		MandatoryProbes: []string{"flush-size", "flush-timeout", "flush-explicit", "stale-token", "fetch"},
 		Real:            []string{"batching.EventBatcher", "batching.ReorderFetcher", "batching.ReorderBuffer", "clocks.SystemTimer on the bubble's fake clock"},
